@@ -19,6 +19,13 @@ class Unsupported(Exception):
     pass
 
 
+class PyRaise(Exception):
+    """the expression being evaluated raises a Python exception on this path"""
+
+    def __init__(self, exc, line):
+        self.exc, self.line = exc, line
+
+
 class PathDead(Exception):
     """the current path ends here (an obligation saying it is unreachable has been recorded)"""
 
@@ -62,9 +69,12 @@ class DictV:
     def __init__(self, has, val, vkind='int', kkind='int', ne=None):
         self.has, self.val, self.vkind, self.kkind = has, val, vkind, kkind
         self._ne = ne if ne is not None else fresh('nonempty', B)
+        self._len = fresh('len')
 
     def copy(self):
-        return DictV(self.has, self.val, self.vkind, self.kkind, self._ne)
+        d = DictV(self.has, self.val, self.vkind, self.kkind, self._ne)
+        d._len = self._len
+        return d
 
 
 class SetV:
@@ -337,6 +347,11 @@ class Exec:
 
     def ev_BinOp(self, e, p):
         a, b = self.ev(e.left, p), self.ev(e.right, p)
+        if isinstance(e.op, ast.Add) and isinstance(b, StrV):
+            if isinstance(a, (StrV, NameV)):
+                return StrV('<str>')
+            if isinstance(a, (IntV, BoolV)):
+                raise PyRaise('TypeError', e.lineno)       # int + str
         za, zb = zint(a, self, p, f'@{e.lineno}'), zint(b, self, p, f'@{e.lineno}')
         if isinstance(e.op, ast.Add):
             return IntV(za + zb)
@@ -748,7 +763,7 @@ class Exec:
             mv = self.mgr_of_expr(f.value, p)
             if mv is not None:
                 q = f'{mv.cls}.{f.attr}'
-                if q in self.reg:
+                if q in self.reg or any(k.startswith(q + ':') for k in self.reg):
                     return q, mv
                 raise Unsupported(f'call to {q}@{line} (no contract)')
             if isinstance(f.value, ast.Name) and f.value.id in ('_utils', '_parser', '_copy', '_bdd'):
@@ -810,6 +825,10 @@ class Exec:
             return IntV(v.n)
         if isinstance(v, TupV):
             return IntV(IntVal(len(v.items)))
+        if isinstance(v, DictV):
+            # ghost cardinality; zero exactly when empty
+            self.assume(p, (v._len == 0) == Not(nonempty(v)))
+            return IntV(v._len)
         raise Unsupported(f'len({ast.unparse(a)})@{e.lineno}')
 
     def builtin_isinstance(self, e, p):
@@ -916,6 +935,20 @@ class Exec:
             return r
         raise Unsupported(f'filter source@{line}')
 
+    def builtin_next(self, e, p):
+        """`next(iter(d))`: some key of a non-empty dict/set (StopIteration otherwise: obligation)"""
+        a = e.args[0]
+        if not (len(e.args) == 1 and isinstance(a, ast.Call) and isinstance(a.func, ast.Name) and a.func.id == 'iter'):
+            raise Unsupported('next(...)')
+        d = self.ev(a.args[0], p)
+        if not isinstance(d, (DictV, SetV)):
+            raise Unsupported('next(iter(x)) of non-container')
+        self.oblige(p, f'stopiteration:next-of-empty@{e.lineno}', nonempty(d), e.lineno)
+        ks = {'int': I, 'name': M.Name}[d.kkind]
+        k0 = fresh('first_key', ks)
+        self.assume(p, d.has[k0])
+        return NameV(k0) if d.kkind == 'name' else IntV(k0)
+
     def builtin_sorted(self, e, p):
         """builtin (assumed, listed in the trusted base): sorted(set of ints) is the strictly increasing list of
         exactly its elements; `idx` is the witness of "every element occurs"."""
@@ -1021,6 +1054,8 @@ class Exec:
         except Unsupported:
             return NotImplemented
         args = [self.ev(a, p) for a in e.args]
+        if isinstance(v, DictV) and meth == 'items' and not args:
+            return ObjV('items', dict(d=v))
         if isinstance(v, DictV) and meth == 'get' and len(args) == 2:
             kz = args[0].z if v.kkind == 'name' else zint(args[0], self, p)
             r = self.dict_val(v, kz)
@@ -1064,6 +1099,8 @@ class Exec:
             tag = {DictV: 'dict', SetV: 'set'}.get(type(a_))
             if tag and f'{qual}:{tag}' in self.reg:
                 qual = f'{qual}:{tag}'
+        if qual not in self.reg:
+            raise Unsupported(f'call to {qual}@{e.lineno}: no contract for this argument kind')
         c = self.reg[qual]
         self.calls.append(qual)
         line = e.lineno
@@ -1086,6 +1123,14 @@ class Exec:
                     bound[n] = BoolV(BoolVal(False))
                 else:
                     raise Unsupported(f'missing argument {n} for {qual}@{line}')
+        for n, kind in c.params:
+            v = bound.get(n)
+            if isinstance(v, DictV) and kind.startswith('dict:') and z3.is_K(v.has):
+                # `dict()` literal: its key/value kinds are fixed by the first use
+                k_, vk_ = kind[5:].split('->')
+                if (v.kkind, v.vkind) != (k_, vk_):
+                    e2 = self.empty_dict(e, vk_, k_)
+                    v.has, v.val, v.kkind, v.vkind = e2.has, e2.val, k_, vk_
         mkey = bound[c.mgr].key if c.mgr in bound and isinstance(bound[c.mgr], MgrV) else None
         S0 = p.mgrs[mkey] if mkey is not None else None
         self._check_none = True
@@ -1216,6 +1261,9 @@ class Exec:
                     res = self.stmt(st, p)
                 except PathDead:
                     res = []
+                except PyRaise as pr:
+                    p.status, p.exc, p.line, p.exc_from = 'raise', pr.exc, pr.line, None
+                    res = [p]
                 nxt.extend(res)
                 nxt.extend(self.side_paths)
                 self.side_paths = []
@@ -1266,6 +1314,19 @@ class Exec:
         if isinstance(tgt, ast.Name):
             p.env[tgt.id] = val
             return
+        if isinstance(tgt, (ast.Tuple, ast.List)) and isinstance(val, ObjV) and val.cls == 'items' and len(tgt.elts) == 1:
+            # `(k, v), = d.items()`: exactly one item (ValueError otherwise)
+            from z3 import ForAll
+            d = val.attrs['d']
+            self.oblige(p, f'valueerror:unpack-needs-exactly-one-item@{line}', d._len == 1, line)
+            ks = {'int': I, 'name': M.Name}[d.kkind]
+            k0 = fresh('only_key', ks)
+            kk = Const(f'kk!{next(M._cnt)}', ks)
+            p.pc += [d.has[k0], ForAll([kk], Implies(d.has[kk], kk == k0), patterns=[d.has[kk]])]
+            self.assumed_builtins.add('a dict with len 1 has exactly one key (unpacking `(k, v), = d.items()`)')
+            key = NameV(k0) if d.kkind == 'name' else IntV(k0)
+            self.assign(tgt.elts[0], TupV([key, self.dict_val(d, k0)]), p, line)
+            return
         if isinstance(tgt, (ast.Tuple, ast.List)):
             if not isinstance(val, TupV) or len(val.items) != len(tgt.elts):
                 raise Unsupported(f'unpack@{line}')
@@ -1306,6 +1367,7 @@ class Exec:
                 kz = self.name_it(p, kz, 'dk')
                 base.has = Store(base.has, kz, True)
                 base._ne = BoolVal(True)
+                base._len = fresh('len')
                 if base.vkind == 'bool':
                     base.val = Store(base.val, kz, truth(val))
                 elif base.vkind == 'name':
